@@ -3,6 +3,8 @@ C10 — witnesses: concrete inputs on which a full-strength statement is FALSE o
 real code: each input is replayed on the implementation by `py/props/c10.py`).
 -/
 import WpModel.Props.C10
+import WpModel.Props.C10Draw
+import WpModel.Props.C10SplitBorders
 
 namespace Wp.Witness.C10
 open Wp Wp.Table Wp.C10
@@ -14,33 +16,21 @@ def NonnegDecl (W s : Rat) (cols : List Dim) (cells : List FCell) : Prop :=
   (∀ d ∈ cols, ∀ w, d.used W = some w → 0 ≤ w) ∧
   (∀ c ∈ cells, (∀ w, c.width.used W = some w → 0 ≤ w) ∧ 0 ≤ c.padL ∧ 0 ≤ c.padR ∧ 0 ≤ c.borL ∧ 0 ≤ c.borR)
 
-/-- `<table style="table-layout:fixed;width:60px;border-spacing:0"><col style="width:100px"><col>
-<tr><td colspan=2 style="width:50px">`: the second column gets `50 − 100 = −50`, then `+5`. -/
-theorem fixed_negative_column_eval :
-    fixedLayout (some 60) 0 [.px 100, .auto] [⟨2, .px 50, 0, 0, 0, 0, .content⟩] = .ok ⟨60, [105, -45]⟩ := by
+/-- Regression (was the witness `fixed_negative_column_eval` of finding `fixed-negative-column`,
+repaired by 5d962d2).  `<table style="table-layout:fixed;width:60px;border-spacing:0">
+<col style="width:100px"><col><tr><td colspan=2 style="width:50px">`: the second column used to get
+`50 − 100 = −50` (then `+5`: columns 105 / −45); it now gets `max(−50, 0) = 0` and the table is widened
+to the declared 100. -/
+theorem fixed_negative_column_repaired :
+    fixedLayout (some 60) 0 [.px 100, .auto] [⟨2, .px 50, 0, 0, 0, 0, .content⟩] = .ok ⟨100, [100, 0]⟩ := by
   decide +kernel
 
-/-- The full statement "all column widths are ≥ 0 given non-negative declarations" (DESIGN §4 C10,
-fixed_honours) is false: finding `fixed-negative-column`. -/
-theorem fixed_negative_column :
-    ¬ (∀ (W s : Rat) (cols : List Dim) (cells : List FCell) (o : FixedOut),
-        NonnegDecl W s cols cells → fixedLayout (some W) s cols cells = .ok o → ∀ w ∈ o.cols, 0 ≤ w) := by
-  intro h
-  have hd : NonnegDecl 60 0 [.px 100, .auto] [⟨2, .px 50, 0, 0, 0, 0, .content⟩] := by
-    refine ⟨by norm_num, le_refl _, ?_, ?_⟩
-    · intro d hd w hw
-      simp only [List.mem_cons, List.not_mem_nil, or_false] at hd
-      rcases hd with rfl | rfl
-      · simp only [Dim.used] at hw; injection hw with hw; rw [← hw]; norm_num
-      · simp [Dim.used] at hw
-    · intro c hc
-      simp only [List.mem_cons, List.not_mem_nil, or_false] at hc
-      subst hc
-      refine ⟨?_, le_refl _, le_refl _, le_refl _, le_refl _⟩
-      intro w hw
-      simp only [Dim.used] at hw; injection hw with hw; rw [← hw]; norm_num
-  have := h 60 0 _ _ _ hd fixed_negative_column_eval (-45) (by simp)
-  norm_num at this
+/-- Regression: the full statement "all column widths are ≥ 0 given non-negative declarations"
+(DESIGN §4 C10, fixed_honours), which the witness `fixed_negative_column` used to refute, now holds
+(`C10.fixed_nonneg`; only the `<col>` part of `NonnegDecl` is needed). -/
+theorem fixed_nonneg_of_nonnegDecl (W s : Rat) (cols : List Dim) (cells : List FCell) (o : FixedOut)
+    (hd : NonnegDecl W s cols cells) (h : fixedLayout (some W) s cols cells = .ok o) : ∀ w ∈ o.cols, 0 ≤ w :=
+  fixed_nonneg W s cols cells o h hd.2.2.1
 
 /-- Without `CleanBand`, `auto_ge_min` fails by less than `1e-9 · assignable`: two guesses whose sums
 both fall inside the tolerance band above the assignable width make the code extrapolate
@@ -75,16 +65,92 @@ theorem auto_spacing_short :
     sumR [15, 15] + 10 * ((2 : Rat) + 1) ≠ 50 := by
   refine ⟨by decide +kernel, by decide +kernel, by norm_num⟩
 
-/-- Finding `rtl-columns-reversed-on-relayout`.  `table_layout` ends with `column_widths.reverse()`
-on the list object shared with the pre-layout table (`finalColumns` in the model).  When the same
-page lays the table out a second time (`_in_flow_layout` retries with a larger `bottom_space` because
-the table's bottom border overflowed), the second pass reads the reversed list: with widths `[17, 68]`
-the cell of column 0 is placed at x = 25 and is 68 wide instead of x = 76 and 17 wide.  The model
-functions are pure; the witness shows what the second pass computes. -/
-theorem rtl_relayout_uses_reversed_widths :
+/-- Regression (was the witness `rtl_relayout_uses_reversed_widths` of finding
+`rtl-columns-reversed-on-relayout`, repaired by d13f52d).  `table_layout` used to end with
+`column_widths.reverse()` on the list object shared with the pre-layout table, so a second layout of
+the same table on the same page (`_in_flow_layout` retries with a larger `bottom_space`) read the
+reversed list and placed the cell of column 0 at x = 25, 68 wide.  The code now stores a reversed
+*copy* on the fragment (`table.column_widths = column_widths[::-1]`, `finalColumns` in the model) and
+every pass reads the list computed by the width algorithm: with widths `[17, 68]` the cell of column 0
+is at x = 76 and 17 wide, the fragment shows `[68, 17]`, and reversing what a fragment shows gives
+back the layout widths (checked on every rtl fragment by the `doc-final-columns` section). -/
+theorem rtl_relayout_same_widths :
     cellGeom false (colPositions false 8 85 0 [17, 68]).positions [17, 68] 0 0 1 = .ok (some ⟨76, 17, 1⟩) ∧
-    cellGeom false (colPositions false 8 85 0 (finalColumns false [17, 68])).positions
-      (finalColumns false [17, 68]) 0 0 1 = .ok (some ⟨25, 68, 1⟩) := by
+    finalColumns false [17, 68] = [68, 17] ∧
+    finalColumns false (finalColumns false [17, 68]) = [17, 68] := by
+  refine ⟨by decide +kernel, by decide +kernel, by decide +kernel⟩
+
+/-- Finding `collapsed-footer-line-off-by-one`.  A collapsed table with a `tfoot` and five body rows
+`a … e`, row `e` with `border-top: 4px solid red`, on pages that hold three body rows plus the repeated
+footer: the first fragment shows `a, b, c, f`.  `row_number(y, horizontal=True)` tests
+`y >= grid_height - footer_rows - 1`, so line 2 of the fragment — the line between `b` and `c`, whose
+grid entry is the null border — is taken for a footer line and shifted by `footer_rows_offset = 2` to grid
+line 4, the red line above `e` (which is on the next page): a 4px red line is painted across the page
+between `b` and `c`, whose cells were laid out with used border widths 0.  Replayed on the real
+`draw_collapsed_borders` by `py/props/c10.py` (`footer_line_replay`). -/
+def footerFragment : BorderDraw.DrawIn :=
+  let e0 : Borders.Edge := Borders.weakNull
+  let red : Borders.Edge := ⟨⟨0, 4, Borders.styleRank .solid⟩, ⟨.solid, 4, 1⟩⟩
+  ⟨[10, 10, 10, 10], [0, 10, 20, 30], [10], [0], 0, 1, 0, false, false,
+   List.replicate 6 [e0, e0], [[e0], [e0], [e0], [e0], [red], [e0], [e0]]⟩
+
+theorem footer_line_off_by_one :
+    -- line 2 of the fragment lies between two body rows of the fragment (rows 1 and 2 of 3) …
+    BorderDraw.rowNumber footerFragment 2 true = 4 ∧
+    -- … and what is painted is one red segment at y = 20 (between `b` and `c`)
+    (BorderDraw.segments footerFragment).map (·.map (fun s => (s.style, s.width, s.color, s.y))) =
+      .ok [(.solid, 4, 1, 20)] := by
   constructor <;> decide +kernel
+
+/-- The full statement of `C10Draw.painted_body_lines_partial` (every line between two body rows of a
+fragment shows the grid line between those rows) is false of the code. -/
+theorem painted_body_lines_full_false :
+    ¬ (∀ (d : BorderDraw.DrawIn) (y : Int), (d.headerRows : Int) < y →
+        y < (BorderDraw.gridHeight d : Int) - d.footerRows →
+        BorderDraw.rowNumber d y true = y + BorderDraw.bodyOffset d) := by
+  intro h
+  have := h footerFragment 2 (by decide) (by decide)
+  revert this
+  decide +kernel
+
+/-- Finding `collapsed-dropped-header-shifts-borders`.  A collapsed table whose `thead` (one row `h`,
+55px high) does not fit on the 60px page together with a body row: `all_groups_layout` drops the header
+("Header too big for the page") and the first fragment shows the body rows `a, b, c` — grid rows 1, 2, 3.
+`table_layout` still records `skipped_rows = 0` for a first fragment (`SplitBorders.skippedRows none _ = 0`),
+so `draw_collapsed_borders` paints fragment row `k` with grid row `k`: the 4px red line above `b`
+(grid line 2, reserved by the layout between `a` and `b`, y = 12) is painted at fragment line 2,
+y = 24, between `b` and `c`.  Replayed on the real code by `py/props/c10.py` (`dropped_header_replay`). -/
+def droppedHeaderFragment : BorderDraw.DrawIn :=
+  let e0 : Borders.Edge := Borders.weakNull
+  let red : Borders.Edge := ⟨⟨0, 4, Borders.styleRank .solid⟩, ⟨.solid, 4, 1⟩⟩
+  ⟨[12, 12, 10], [0, 12, 24], [10], [0], 0, 0, 0, false, false,
+   List.replicate 4 [e0, e0], [[e0], [e0], [red], [e0], [e0]]⟩
+
+theorem dropped_header_shift :
+    (∀ lens, SplitBorders.skippedRows none lens = 0) ∧
+    BorderDraw.rowNumber droppedHeaderFragment 1 true = 1 ∧
+    (BorderDraw.segments droppedHeaderFragment).map (·.map (fun s => (s.style, s.width, s.color, s.y))) =
+      .ok [(.solid, 4, 1, 24)] := by
+  refine ⟨fun _ => rfl, by decide +kernel, by decide +kernel⟩
+
+/-- Finding `collapsed-rtl-clipped-grid`.  `direction: rtl; table-layout: fixed`, first row `<td>a</td>`,
+second row `<td style="border:5px solid red">b</td><td>c</td>`: the fixed layout keeps one column (the
+first row has one cell), `c` is beyond the grid and not rendered.  The border grids of
+`collapse_table_borders` have two columns, stored left to right: `c` on the left (1px black), `b` on the
+right (5px red).  The fragment keeps the *rightmost* grid column, `draw_collapsed_borders` reads column
+`x = 0`, the leftmost: `b`, laid out with used border widths 2.5 on every side, is painted with 1px lines
+above, below and on its left (and `a` gets no top line).  Replayed on the real code by
+`py/props/c10.py` (`rtl_clipped_replay`). -/
+def clippedRtlFragment : BorderDraw.DrawIn :=
+  let e0 : Borders.Edge := Borders.weakNull
+  let blk : Borders.Edge := ⟨⟨0, 1, Borders.styleRank .solid⟩, ⟨.solid, 1, 1⟩⟩
+  let red : Borders.Edge := ⟨⟨0, 5, Borders.styleRank .solid⟩, ⟨.solid, 5, 2⟩⟩
+  ⟨[10, 10], [0, 10], [100], [0], 0, 0, 0, false, false,
+   [[e0, blk, blk], [blk, red, red]], [[e0, blk], [blk, red], [blk, red]]⟩
+
+theorem rtl_clipped_grid_wrong_column :
+    (BorderDraw.segments clippedRtlFragment).map (·.map (fun s => (s.side, s.width, s.y))) =
+      .ok [(.left, 1, 0), (.top, 1, 10), (.left, 1, 19 / 2), (.top, 1, 20), (.left, 5, 19 / 2)] := by
+  decide +kernel
 
 end Wp.Witness.C10
